@@ -110,9 +110,9 @@ def pipeline(coords, species, M, site_frac, labels, want_volume=True, li_cols=(0
 
         from gemdat.collective import Collective
 
-        extra = np.asarray(site_frac)[0] + np.array([0.5, 0.45, 0.55])
-        s4 = concretise.make_sites(np.vstack([np.asarray(site_frac), extra[None]]), list(labels) + ['A'], M)
         inv = [list(labels_index).index(k) for k in range(3)] if (labels_index := out.get('_site_order')) else [0, 1, 2]
+        extra = np.asarray(site_frac)[inv[0]] + np.array([0.5, 0.45, 0.55])  # defined relative to the site that is site 0 in the base labelling
+        s4 = concretise.make_sites(np.vstack([np.asarray(site_frac), extra[None]]), list(labels) + ['A'], M)
         df = pd.DataFrame(np.array([[0, inv[0], inv[1], 0, 1], [1, inv[2], 3, 1, 2]]), columns=['atom index', 'start site', 'destination site', 'start time', 'stop time'])
         cc = []
         for md in (1.0, 2.0, 3.0, 4.0, 5.0):
